@@ -65,6 +65,8 @@ func runC01(c *Ctx) {
 		{name: "N2.F1.reentrant-callbacks", n: 2, bound: vrt.Budget{F: 1}, faults: base, keep: []bool{true}, phases: []byte{'B', 'S', 'N'}, kinds: []string{"p1", "p2", "sub"}, reent: true},
 		{name: "N2.F2.eof-write-errors", n: 2, bound: vrt.Budget{F: 2}, faults: env.FaultSet{WriteErr: true, LostClose: true}, keep: []bool{true}, phases: []byte{'B', 'S', 'N'}, kinds: []string{"p1", "p2", "sub", "unsub"}, eofw: true},
 		{name: "N2.F1.slow-onerror", n: 2, bound: vrt.Budget{F: 1}, faults: env.FaultSet{LostClose: true, AckLost: true}, keep: []bool{true}, phases: []byte{'S', 'N', 'O'}, kinds: []string{"p1", "p2", "sub"}, slowOE: 2500 * time.Millisecond},
+		{name: "N2.F1.S1", n: 2, bound: vrt.Budget{F: 1, S: 1, Total: 2}, faults: base, keep: []bool{true}, phases: []byte{'S', 'N', 'O', 'H'}, kinds: []string{"p1", "p2", "sub"}},
+		{name: "manual.N2.F1.S1", n: 2, bound: vrt.Budget{F: 1, S: 1, Total: 2}, faults: base, keep: []bool{true}, phases: []byte{'S', 'N', 'O'}, kinds: []string{"p1", "p2", "sub"}, manual: true},
 		{name: "N1.F2.noconnack", n: 1, bound: vrt.Budget{F: 2}, faults: env.FaultSet{NoConnAck: true, LostClose: true, OnlyTypes: map[byte]bool{env.CONNECT: true, env.PUBLISH: true, env.SUBSCRIBE: true}}, keep: []bool{true}, phases: []byte{'B', 'S'}, tmo: 3 * time.Second, kinds: all},
 	}
 	quickN := len(fams) // the thorough tier runs the quick families first, unchanged, then the deeper ones
